@@ -68,13 +68,17 @@ class EquationParser(object):
             # Any usage of 'exogenous' switches over to the Exogenous block
             # I could skip this, but would need to use eval(), which is dangerous with
             # untrusted inputs.
-            if 'exogenous' in equation.lower():
-                mode = 'exogenous'
-                continue
             # Remove comments (like this one!)
+            raw_line = equation
             pos = equation.find('#')
             if pos > -1:
                 equation = equation[0:pos]
+            # The marker word may be in the statement itself or on a comment-only line; a trailing
+            # comment (e.g., a variable description) on an equation line never switches the mode.
+            if 'exogenous' in equation.lower() or \
+                    (len(equation.strip()) == 0 and 'exogenous' in raw_line.lower()):
+                mode = 'exogenous'
+                continue
             equation = equation.strip()
             if len(equation) == 0:
                 continue
